@@ -266,6 +266,13 @@ class ConstEval:
             if last == "len" and len(args) == 1 and not kwargs and isinstance(args[0], (tuple, list, dict)) and \
                     not any(isinstance(k_, Sym) and k_.text.startswith("**") for k_ in (args[0] if isinstance(args[0], dict) else ())):
                 return len(args[0])     # the length of a literal collection is known even if its elements are symbolic
+            if last in ("frozenset", "set", "tuple", "list") and fn == last and len(args) == 1 and not kwargs and \
+                    isinstance(args[0], (tuple, list, frozenset)) and is_const(args[0]):
+                # re-wrapping a constant collection (elements may be enum members / records)
+                try:
+                    return frozenset(args[0]) if last in ("frozenset", "set") else tuple(args[0])
+                except TypeError:
+                    pass
             if last in ("int", "str", "len", "bool", "float") and len(args) >= 1 and not kwargs and all(is_const(a) for a in args):
                 try:
                     return {"int": int, "str": str, "len": len, "bool": bool, "float": float}[last](*[_num(a) if last != "len" else a for a in args])
@@ -274,6 +281,14 @@ class ConstEval:
             return CallVal(fn, args, kwargs)
         if isinstance(n, (ast.ListComp, ast.GeneratorExp, ast.SetComp)):
             return self._comprehension(n, local)
+        if isinstance(n, ast.DictComp):
+            pairs = self._comprehension(n, local)
+            if isinstance(pairs, tuple):
+                try:
+                    return dict(pairs)
+                except TypeError:
+                    return Sym(src(n))
+            return pairs
         if isinstance(n, ast.JoinedStr):
             return Sym(src(n))
         if isinstance(n, ast.Subscript):
@@ -296,6 +311,7 @@ class ConstEval:
         tuple: {"count", "index"},
         list: {"count", "index"},
         int: {"bit_length", "to_bytes"},
+        dict: {"items", "keys", "values", "get"},
     }
     _PURE_BUILTINS = {"min": min, "max": max, "sum": sum, "any": any, "all": all, "sorted": sorted, "abs": abs,
                       "tuple": tuple, "list": list, "bytes": bytes, "divmod": divmod, "ord": ord, "chr": chr}
@@ -309,7 +325,8 @@ class ConstEval:
                 base = self.ev(n.func.value, local)
                 for typ, names in self._PURE_METHODS.items():
                     if type(base) is typ and n.func.attr in names:
-                        return getattr(base, n.func.attr)(*args)
+                        r_ = getattr(base, n.func.attr)(*args)
+                        return tuple(r_) if typ is dict and n.func.attr != "get" else r_
                 return _NOFOLD
             if isinstance(n.func, ast.Name) and n.func.id not in local:
                 name = n.func.id
@@ -339,7 +356,10 @@ class ConstEval:
 
         def rec(i, env):
             if i == len(n.generators):
-                results.append(self.ev(n.elt, env))
+                if isinstance(n, ast.DictComp):
+                    results.append((self.ev(n.key, env), self.ev(n.value, env)))
+                else:
+                    results.append(self.ev(n.elt, env))
                 return True
             g = n.generators[i]
             if g.is_async:
@@ -372,7 +392,8 @@ class ConstEval:
             return True
         if not rec(0, dict(local)):
             return Sym(src(n))
-        if any(isinstance(r, (Sym, CallVal)) for r in results):
+        if any(isinstance(r, (Sym, CallVal)) or (isinstance(n, ast.DictComp) and any(isinstance(x, (Sym, CallVal)) for x in r))
+               for r in results):
             return Sym(src(n))
         return tuple(results)
 
@@ -417,6 +438,17 @@ class ConstEval:
                 if len(rc) == 1:
                     target = self.repo.lookup_method(rc[0], func.attr)
                     recv_val = base
+            elif isinstance(base, Sym) and base.text.startswith("self:"):
+                # a method called on the symbolic instance the caller is interpreting (`self.helper(..)`): the instance's
+                # known attribute values (self.<attr> entries of the environment) travel with it
+                rc = self.repo.classes.get(base.text.split(":", 1)[1], [])
+                if len(rc) == 1:
+                    target = self.repo.lookup_method(rc[0], func.attr)
+                    recv_val = base
+                    recv_name = ap(func.value)
+                    if target is not None and recv_name and all(is_const(a) or isinstance(a, (Sym, RecordVal)) for a in args):
+                        extra = {k[len(recv_name):]: v for k, v in (local or {}).items() if k.startswith(recv_name + ".")}
+                        return self._interpret(target, recv_val, args, kwargs, extra)
             elif isinstance(base, Sym) and base.text.startswith("class:"):
                 cname = base.text.split(":", 1)[1].split("::")[-1].split(".")[-1]
                 rc = [c for c in self.repo.classes.get(cname, []) if c.qual == base.text.split(":", 1)[1]] or \
@@ -434,7 +466,7 @@ class ConstEval:
             return None
         return self._interpret(target, recv_val, args, kwargs)
 
-    def _interpret(self, target, recv_val, args, kwargs):
+    def _interpret(self, target, recv_val, args, kwargs, recv_attrs=None):
         from .miniinterp import run_block
         a = target.node.args
         if a.vararg or a.kwarg:
@@ -446,6 +478,8 @@ class ConstEval:
             if not params:
                 return None
             env[params[0]] = recv_val if recv_val is not None else Sym(f"class:{target.cls.name}")
+            for k_, v_ in (recv_attrs or {}).items():
+                env[params[0] + k_] = v_
             params = params[1:]
         if len(args) > len(params):
             return None
@@ -511,6 +545,9 @@ class ConstEval:
         path = ap(n)
         if path == "math.pi":
             return math.pi
+        if local is not None and path and path in local:
+            # an attribute path the interpreter bound itself (`cls.TABLE = ...` earlier in the same body / seeded env)
+            return local[path]
         # Enum.MEMBER / Enum.MEMBER.value
         if isinstance(n.value, ast.Name) or isinstance(n.value, ast.Attribute):
             base_path = ap(n.value)
